@@ -23,6 +23,25 @@ var corpus = [][]string{
 	{`/ 6 3`, `/ 12 2 3`, `/ -6 3`, `/ 6 0`, `/ 0 6`, `/ 1`, `/ 0`, `num 12`, `num x`, `num (num 3)`, `num []`, `eq a a`, `eq a b`, `eq [a [b]] [a [b]]`, `eq [&a=b &c=d] [&c=d &a=b]`, `eq a (num 1)`, `eq 1 (num 1)`, `not-eq a b`, `not-eq a`, `eq`, `eq a`},
 	{`var x = 2`, `put $x`, `del x`, `var m = [&k=v &k2=v2]`, `del m[k2]`, `put $m`, `var l = [[&k=v &k2=v2]]`, `del l[0][k2]`, `put $l`, `del m[nokey]`, `put $m`, `del l[0]`, `del l[1][k]`},
 	{`var x = value`, `fn f { put $x }`, `del x`, `f`, `var y = 1; fail stop; del y`, `var z = 3`, `fail stop; del z`},
+	// ---- keys, order with comparators, str:
+	{`var m = [&b=1 &a=2 &c=3]`, `keys $m | order`, `keys $m | count`, `keys [&k=v]`, `keys [&]`, `keys [a b]`, `count [(keys [&k=v])]`, `keys $m | order &reverse`, `keys $m`},
+	{`order &less-than={|a b| < $a $b } [5 1 10]`, `order &less-than={|a b| > $a $b } [5 1 10]`, `order &key={|x| - $x } [5 1 10]`, `order &reverse &less-than={|a b| < $a $b } [5 1 10 1]`, `order &less-than={|a b| eq $a x } [l x o r x e x m]`, `order &less-than={|a b| put x } [b a]`, `order &less-than={|a b| fail cmp } [b a]`, `order &less-than={|a b| put $true $true } [b a]`, `order &less-than={|a b| fail never } [a]`, `var n = (num 0)`, `order &less-than={|a b| set n = (+ $n 1); < $a $b } [3 1 2 5 4]`, `put $n`, `order &key={|x| fail k } [a]`, `order &key={|x| put $x[1] } [[0 x] [1 a] [2 b]]`, `order &total [a]`},
+	{`use str`, `str:join , [a b c]`, `str:join '' [a b]`, `str:join , []`, `put a b | str:join -`, `str:join , [a (num 1)]`, `str:join , a`, `str:split , a,b,c`, `str:split '' abc`, `str:split , ''`, `str:split '' ''`, `str:split ab xabyabz`, `str:split , (num 1)`, `str:has-prefix foobar foo`, `str:has-prefix foobar bar`, `str:has-suffix foobar bar`, `str:has-prefix a ''`, `str:has-prefix`, `put (str:split ' ' 'how are you?' | take 1)`, `str:to-upper a`},
+	// ---- modules
+	{`#mod a: put 'mod a loading'; var x = 1; fn f { put 'f from mod a' $x }; fn inc { set x = (+ $x 1) }`, `use a`, `a:f`, `put $a:x`, `a:inc`, `a:f`, `set a:x = 10`, `a:f`, `use a`, `use a b`, `b:f`, `put $b:x`, `{ use a c; c:inc }`, `put $a:x`, `put $a:nosuch`, `a:nosuch`, `put $a:`},
+	{`#mod a: var v = a-val`, `#mod b: use a; var w = $a:v'-and-b'; fn g { put $a:v $w }`, `use b`, `b:g`, `put $b:w`, `use nosuchmod`, `put $b:a:v`},
+	{`#mod bad: put before; fail in-module; var unreached = 1`, `use bad`, `use bad`, `put ?(use bad)`},
+	{`#mod a: var x = 1`, `fn f { use a; put $a:x }`, `f`, `{ use a; set a:x = 2 }`, `f`, `fail stop; use a`, `put $a:`},
+	// ---- byte output
+	{`echo a b`, `print a b`, `echo`, `print`, `echo &sep=, a b c`, `echo a (num 3) b`, `put (echo "a\nb")`, `put (echo "a\r\nb")`, `put (echo "a\n")`, `put (print what) (echo what)`, `put (print "a\n\nb")`, `put (print "x\r")`, `var l = [(echo a; echo b)]`, `put $l`, `put ?(echo in-xcap)`},
+	{`echo a b | each {|x| put [$x] }`, `print "l1\nl2\nl3" | take 2`, `echo x | count`, `{ echo a; echo b } | order &reverse`, `for x [a b] { echo $x }`, `fn f { echo from-f; put v }`, `f`, `echo a | nop`, `put (put a; echo b)`},
+	{`fn f { echo from-f; put v }`, `var o = [(f)]`},
+	// ---- tmp, with, defer
+	{`var x = foo`, `fn f { put $x }`, `{ tmp x = bar; f }`, `f`, `var x = old`, `with x = new { put $x }`, `put $x`, `var y = old-y`, `with [x = new-x] [y = new-y] { put $x $y }`, `put $x $y`},
+	{`{ defer { put foo }; put bar }`, `defer { put foo }`, `fn f { defer { put d1 }; defer { put d2 }; put body }`, `f`, `fn g { defer { put d }; fail body }`, `g`, `fn h { defer { fail d }; put body }`, `h`, `fn k { defer { put d }; return; put unreached }`, `k`},
+	{`var x = 1`, `for i [a b] { tmp x = $i; put $x }`, `put $x`, `if $true { tmp x = 2; put $x }`, `put $x`, `try { tmp x = 3; fail t } catch e { put $x }`, `var l = [a b]`, `{ tmp l[0] = z; put $l }`, `put $l`, `{ tmp x = 5; tmp x = 6; put $x }`, `put $x`},
+	{`var x = 1`, `with x = 2 { fail in-with }`, `put $x`, `with x = (fail rhs) { put unreached }`, `put $x`, `var y = 1`, `with [x = 2] [y = a b] { put unreached }`, `put $x $y`, `for i [a b] { with x = $i { if (eq $i a) { continue }; put $x } }`, `put $x`, `fn f { with x = 9 { return }; put unreached }`, `f`, `put $x`},
+	{`var x = 1`, `fn f { defer { put $x }; tmp x = 2; put $x }`, `f`, `put $x`, `for i [a b] { defer { put end-$i }; put $i }`, `range 2 | each {|v| defer { put d$v }; put $v }`, `{ defer { put outer }; { defer { put inner }; put body } }`, `put (put a; { defer { put captured }; put b })`},
 	// ---- closures
 	{`fn make-adder { var n = 0; put { put $n } { set n = (+ $n 1) } }`, `var getter adder = (make-adder)`, `$getter`, `$adder`, `$getter`, `var getter2 adder2 = (make-adder)`, `$getter2`, `$getter`},
 	{`var f = {|a b| put $b $a }`, `$f lorem ipsum`, `$f lorem`, `$f a b c`},
